@@ -111,6 +111,19 @@ def hidden_names_by_language():
     return out
 
 
+def names_by_language():
+    """{language: [every extension / file name --list-languages gives for it]}"""
+    env = base_env()
+    p = subprocess.run([build.BIN, "--list-languages"], env=env, stdout=subprocess.PIPE)
+    out = {}
+    for line in p.stdout.decode("utf-8", "replace").splitlines():
+        names = [n for n in re.findall("\x1b\\[32m(.*?)\x1b\\[0m", line) if "/" not in n and " " not in n and n]
+        lang = line.split("\x1b")[0].strip()
+        if names and lang:
+            out.setdefault(lang, []).extend(names)
+    return out
+
+
 def languages():
     env = base_env()
     p = subprocess.run([build.BIN, "--list-languages"], env=env, stdout=subprocess.PIPE)
@@ -327,6 +340,34 @@ def run_lang_task(task):
                                       make_diff(nm, probe, "same").split(b"\n")[:-1])
                         v.args = build_args(base)
                         viols[k] = v
+        # every name --list-languages gives for a language selects that language, as a whole file name or as an
+        # extension (`CMakeLists.txt` is CMake although `.txt` alone is not): it is not coloured like a file of
+        # unknown name when the language colours the probe at all
+        plain_rows = hunk_rows(drv.render1(cid, make_diff("x.unknownext", probe, "same")).out)
+        for lang, entries in sorted(names_by_language().items()):
+            cand = []
+            for e in entries:
+                cand += [e, "x." + e]
+            res = drv.render(cid, [make_diff(nm, probe, "same") for nm in cand])
+            n += len(cand)
+            rws = [hunk_rows(r.out) if not r.panic else None for r in res]
+            if any(r_ is None for r_ in rws):
+                continue
+            coloured_ = [r_ for r_ in rws if r_ != plain_rows]
+            if not coloured_:
+                continue
+            ref_ = max(coloured_, key=lambda r_: sum(1 for x in coloured_ if x == r_))
+            if sum(1 for x in coloured_ if x == ref_) < 2:
+                continue
+            for i, e in enumerate(entries):
+                if rws[2 * i] == plain_rows and rws[2 * i + 1] == plain_rows:
+                    k = "listed-name-not-recognised"
+                    if k not in viols:
+                        v = Violation(k, "%s: --list-languages names %r, but neither a file called %r nor x.%s is coloured "
+                                      "as that language (both are shown like a file of unknown name)" % (lang, e, e, e),
+                                      make_diff(e, probe, "same").split(b"\n")[:-1])
+                        v.args = build_args(base)
+                        viols[k] = v
         # a deleted file (`+++ /dev/null`) has its name on the minus side: its removed lines are coloured like the same
         # lines removed from a file that stays
         cid_ms = drv.mkconfig(build_args(dict(base, **{"minus-style": "syntax 101"})))
@@ -338,6 +379,17 @@ def run_lang_task(task):
                               "the same lines removed from the file" % nm, deleted_file_diff(nm, BODIES[key]).split(b"\n")[:-1])
                 v.args = build_args(dict(base, **{"minus-style": "syntax 101"}))
                 viols.setdefault("deleted-file-language", v)
+        # ... also in plain `diff -u` format (`+++ /dev/null<TAB>date`), also with a blank in directory or file name
+        for nm, key in (("x.rs", "rs"), ("my dir/x.rs", "rs"), ("my x.rs", "rs"), ("my dir/y.py", "py")):
+            du = ("--- %s\t2020-01-01 00:00:00.000000000 +0000\n+++ /dev/null\t1970-01-01 00:00:00.000000000 +0000\n"
+                  "@@ -1,3 +0,0 @@\n" % nm + "".join("-%s\n" % l for l in BODIES[key][:3])).encode("utf-8")
+            r1, r2 = drv.render(cid_ms, [du, deleted_file_diff("x." + key, BODIES[key])])
+            n += 2
+            if not r1.panic and not r2.panic and hunk_rows(r1.out) != hunk_rows(r2.out):
+                v = Violation("deleted-file-language:diff-u", "plain diff -u: the removed lines of the deleted file %r are "
+                              "coloured differently from those of a deleted x.%s in git format" % (nm, key), du.split(b"\n")[:-1])
+                v.args = build_args(dict(base, **{"minus-style": "syntax 101"}))
+                viols.setdefault("deleted-file-language:diff-u", v)
         drv.drop(cid_ms)
         # the default language is a matter of names: a file called like it in the working directory changes nothing
         import os
